@@ -78,11 +78,20 @@ def be16 (x : UInt16) : Bytes := [(x >>> 8).toUInt8, x.toUInt8]
 /-- big-endian bytes to Nat -/
 def beToNat (bs : Bytes) : Nat := bs.foldl (fun acc b => acc * 256 + b.toNat) 0
 
-/-- ASCII decimal rendering of a natural number, as bytes (Rust `format!("{}", n)`). -/
-def natToAscii (n : Nat) : Bytes := (toString n).toUTF8.toList
+/-- decimal digits, most significant first; `fuel` bounds the number of digits -/
+def natDigits : Nat → Nat → Bytes
+  | 0, _ => []
+  | fuel + 1, n => if n < 10 then [UInt8.ofNat (48 + n)] else natDigits fuel (n / 10) ++ [UInt8.ofNat (48 + n % 10)]
 
-/-- ASCII decimal rendering of an integer (Rust `format!("{}", i)` for `i64`). -/
-def intToAscii (i : Int) : Bytes := (toString i).toUTF8.toList
+/-- ASCII decimal rendering of a natural number, as bytes (Rust `format!("{}", n)`); exact for
+    `n < 10^40`, far beyond every length, `u64` and `i64` the code formats -/
+def natToAscii (n : Nat) : Bytes := natDigits 40 n
+
+/-- ASCII decimal rendering of an integer (Rust `format!("{}", i)` for `i64`) -/
+def intToAscii (i : Int) : Bytes :=
+  match i with
+  | .ofNat n => natToAscii n
+  | .negSucc n => 45 :: natToAscii (n + 1)
 
 def strBytes (s : String) : Bytes := s.toUTF8.toList
 
